@@ -124,16 +124,13 @@ def normalize(ctx, F):
     zips = [R.call_args(bb) for bb, t in b.calls() if Callee(t['func']).name == 'zip']
     okz = any(is_call(z[0], 'ArrayBase::outer_iter_mut') and z[0][2][0] == ('field', ('param', 'self'), 'mat') and is_call(z[1], 'ArrayBase::outer_iter_mut') and
               z[1][2][0] == ('field', ('param', 'self'), 'bias') for z in zips)
-    # norm = sqrt(sum(map(row, x^2)))
+    # the factor is a norm of the row being scaled: sqrt(..) of an expression over that row only (any positive factor keeps the
+    # point set; positivity is what the `norm > eps` guard below establishes, so the kind of norm is not prescribed)
     sq = [R.call_args(bb) for bb, t in b.calls() if Callee(t['func']).name == 'sqrt']
     norm_ok = False
     if len(sq) == 1:
-        clo = [x for x in walk(sq[0][0]) if isinstance(x, tuple) and x[:1] == ('closure',)]
-        summed = any(is_call(x, 'Iterator::sum') for x in walk(sq[0][0]))
-        for c in clo:
-            cb, rets = prune.closure_ret(F, c)
-            if rets and is_call(rets[0], 'Float::powi') and rets[0][2][1] == ('const', 2):
-                norm_ok = summed
+        comps = [x[2] for x in walk(sq[0][0]) if isinstance(x, tuple) and x[:1] == ('field',) and is_call(x[1], 'Iterator::next')]
+        norm_ok = comps == ['0']   # the matrix-row component of the (row, bias) pair, nothing else
     # both divisions use the same norm and are guarded by norm > eps
     divs = []
     for bb, t in b.calls():
